@@ -145,7 +145,7 @@ def apply(st: St, op: list) -> None:
             how = op[1]
             c = {'copy': A.copy, 'copy.copy': lambda: copy.copy(A), 'deepcopy': lambda: copy.deepcopy(A),
                  'pickle': lambda: pickle.loads(pickle.dumps(A)), 'ctor': lambda: Angle(A),
-                 'thaw_freeze': lambda: A.freeze().thaw()}[how]()
+                 'from_str': lambda: Angle.from_str(A), 'thaw_freeze': lambda: A.freeze().thaw()}[how]()
             before = abits(A)
             if c is A or abits(c) != before or not (c == A):
                 st.problems.append(('copy_not_equal_distinct', f'Angle {how}: copy is source or differs'))
@@ -154,7 +154,7 @@ def apply(st: St, op: list) -> None:
                 st.problems.append(('copy_aliases_source', f'Angle {how}: mutating the copy changed the source'))
             c2 = {'copy': A.copy, 'copy.copy': lambda: copy.copy(A), 'deepcopy': lambda: copy.deepcopy(A),
                   'pickle': lambda: pickle.loads(pickle.dumps(A)), 'ctor': lambda: Angle(A),
-                  'thaw_freeze': lambda: A.freeze().thaw()}[how]()
+                  'from_str': lambda: Angle.from_str(A), 'thaw_freeze': lambda: A.freeze().thaw()}[how]()
             A.yaw = op[2]
             if abits(c2) != before:
                 st.problems.append(('copy_aliases_source', f'Angle {how}: mutating the source changed the copy'))
@@ -280,7 +280,7 @@ def apply(st: St, op: list) -> None:
         elif k == 'V_copy':
             how = op[1]
             mk = {'copy': V.copy, 'deepcopy': lambda: copy.deepcopy(V), 'pickle': lambda: pickle.loads(pickle.dumps(V)),
-                  'ctor': lambda: Vec(V), 'thaw_freeze': lambda: V.freeze().thaw()}[how]
+                  'ctor': lambda: Vec(V), 'from_str': lambda: Vec.from_str(V), 'thaw_freeze': lambda: V.freeze().thaw()}[how]
             c = mk()
             before = vbits(V)
             if c is V or vbits(c) != before or not (c == V):
@@ -385,10 +385,11 @@ class Model(bfs.Model):
                 ops.append(['A_transform', fn, kv])
                 ops.append(['M_axis', fn, kv])
                 ops.append(['M_imat', fn, kv])
-        for how in ('copy', 'copy.copy', 'deepcopy', 'pickle', 'ctor', 'thaw_freeze'):
+        for how in ('copy', 'copy.copy', 'deepcopy', 'pickle', 'ctor', 'from_str', 'thaw_freeze'):
             ops.append(['A_copy', how, -1e-14])
         for how in ('copy', 'deepcopy', 'pickle', 'ctor', 'thaw_freeze'):
             ops.append(['M_copy', how])
+        for how in ('copy', 'deepcopy', 'pickle', 'ctor', 'from_str', 'thaw_freeze'):
             ops.append(['V_copy', how, -1e-9])
         ops += [['A_freeze', -1e-14], ['A_thaw'], ['M_from_A'], ['M_imat_A'], ['M_imat_W'], ['M_transpose'], ['M_inverse'],
                 ['FM_mat'], ['M_freeze'], ['M_thaw']]
